@@ -6,7 +6,10 @@
 * the order of the sources in `ConfigValue.__get__` and that each is guarded by `is not None`;
 * the format of `ConfigValue.env_var`;
 * whether the unknown-name branch of `ConfigMeta.update` contains a `raise`;
-* that `__set__` / `__delete__` write / remove the same underscore slot `__get__` reads.
+* that `__set__` / `__delete__` write / remove the same underscore slot `__get__` reads;
+* the name test of the `config` decorator (which attributes of the decorated class become `ConfigValue` descriptors:
+  the conjuncts `n.isupper()`, `not n.startswith("_")`), what it carries over from an attribute that already is a
+  `ConfigValue(...)`, and that the selected names go to a metaclass deriving from `ConfigMeta` with the decorator's prefix.
 
 The data is written to `lean/PyrollModel/Gen/C20.lean`; the hand-written model `PyrollModel/Config.lean` is an interpreter
 of that data and the theorems of `PyrollProps/C20.lean` are proved about the interpreter applied to the generated data, so
@@ -358,6 +361,143 @@ def _set_delete(ms):
             raise Gap(f"{name}: expected `{fname}(instance, \"_\" + self.name…)`, got `{'; '.join(_src(b) for b in body)}`")
 
 
+def _is_name(node, ident):
+    return isinstance(node, ast.Name) and node.id == ident
+
+
+def _name_test(t, n):
+    """one conjunct of the decorator's test on the attribute name `n`"""
+    if isinstance(t, ast.Call) and not t.args and not t.keywords and isinstance(t.func, ast.Attribute) \
+            and t.func.attr == "isupper" and _is_name(t.func.value, n):
+        return ("isUpper",)
+    if isinstance(t, ast.UnaryOp) and isinstance(t.op, ast.Not):
+        c = t.operand
+        if isinstance(c, ast.Call) and len(c.args) == 1 and not c.keywords and isinstance(c.func, ast.Attribute) \
+                and c.func.attr == "startswith" and _is_name(c.func.value, n) and isinstance(c.args[0], ast.Constant) \
+                and isinstance(c.args[0].value, str) and c.args[0].value:
+            return ("notStartsWith", c.args[0].value)
+    raise Gap(f"config decorator: unknown test on the attribute name `{_src(t)}` (expected `{n}.isupper()` / "
+              f"`not {n}.startswith(\"…\")`)")
+
+
+def _cv_call(st, target_dict, n, what):
+    """`<target_dict>[n] = ConfigValue(k=…, …)` -> {keyword: value node}"""
+    if not (isinstance(st, ast.Assign) and len(st.targets) == 1 and isinstance(st.targets[0], ast.Subscript)
+            and _is_name(st.targets[0].value, target_dict) and _is_name(st.targets[0].slice, n)
+            and isinstance(st.value, ast.Call) and _is_name(st.value.func, "ConfigValue") and not st.value.args
+            and all(k.arg for k in st.value.keywords)):
+        raise Gap(f"config decorator: {what}: expected `{target_dict}[{n}] = ConfigValue(default=…, …)`, got `{_src(st)}`")
+    return {k.arg: k.value for k in st.value.keywords}
+
+
+def _is_attr_of(node, base, attr):
+    return isinstance(node, ast.Attribute) and node.attr == attr and _is_name(node.value, base)
+
+
+def _decorator(fn):
+    """def config(prefix): def dec(cls): meta_dict = {}; cls_dict = dict(cls.__dict__)
+         for n, v in cls.__dict__.items():
+             if <name tests>: del cls_dict[n]; if not isinstance(v, ConfigValue): meta_dict[n] = ConfigValue(default=v,
+             env_var_prefix=prefix) else: meta_dict[n] = ConfigValue(default=v.default, env_var_prefix=prefix, env_var=v._env_var,
+             parser=v.parser)
+         meta = type(…, (ConfigMeta,), meta_dict); cls = meta(cls.__name__, cls.__bases__, cls_dict); return cls
+       return dec
+    -> (name tests, fields kept from a wrapped ConfigValue)"""
+    if len(fn.args.args) != 1:
+        raise Gap("config decorator: expected one parameter (the prefix)")
+    prefix = fn.args.args[0].arg
+    body = _strip_doc(fn.body)
+    if not (len(body) == 2 and isinstance(body[0], ast.FunctionDef) and isinstance(body[1], ast.Return)
+            and _is_name(body[1].value, body[0].name) and len(body[0].args.args) == 1 and not body[0].decorator_list):
+        raise Gap("config decorator: expected `def dec(cls): …` + `return dec`")
+    dec = body[0]
+    cls = dec.args.args[0].arg
+    dbody = _strip_doc(dec.body)
+    loops = [i for i, s in enumerate(dbody) if isinstance(s, ast.For)]
+    if len(loops) != 1:
+        raise Gap("config decorator: expected one loop over the class attributes")
+    pre, loop, post = dbody[:loops[0]], dbody[loops[0]], dbody[loops[0] + 1:]
+    # before the loop: `meta_dict = {}` and `cls_dict = dict(cls.__dict__)` (any order)
+    meta_dict = cls_dict = None
+    for st in pre:
+        if isinstance(st, ast.Assign) and len(st.targets) == 1 and isinstance(st.targets[0], ast.Name):
+            if isinstance(st.value, ast.Dict) and not st.value.keys:
+                meta_dict = st.targets[0].id
+                continue
+            if isinstance(st.value, ast.Call) and _is_name(st.value.func, "dict") and len(st.value.args) == 1 \
+                    and not st.value.keywords and _is_attr_of(st.value.args[0], cls, "__dict__"):
+                cls_dict = st.targets[0].id
+                continue
+        raise Gap(f"config decorator: unknown statement `{_src(st)}`")
+    if meta_dict is None or cls_dict is None:
+        raise Gap("config decorator: `meta_dict = {}` / `cls_dict = dict(cls.__dict__)` not found")
+    # the loop
+    it = loop.iter
+    if not (isinstance(loop.target, ast.Tuple) and len(loop.target.elts) == 2
+            and all(isinstance(e, ast.Name) for e in loop.target.elts) and not loop.orelse
+            and isinstance(it, ast.Call) and not it.args and isinstance(it.func, ast.Attribute) and it.func.attr == "items"
+            and _is_attr_of(it.func.value, cls, "__dict__")):
+        raise Gap(f"config decorator: expected `for n, v in {cls}.__dict__.items():`, got `{_src(loop).splitlines()[0]}`")
+    n, v = (e.id for e in loop.target.elts)
+    if not (len(loop.body) == 1 and isinstance(loop.body[0], ast.If) and not loop.body[0].orelse):
+        raise Gap("config decorator: expected a single `if <name test>:` in the loop")
+    sel = loop.body[0]
+    conj = sel.test.values if isinstance(sel.test, ast.BoolOp) and isinstance(sel.test.op, ast.And) else [sel.test]
+    tests = [_name_test(t, n) for t in conj]
+    sb = sel.body
+    if not (len(sb) == 2 and isinstance(sb[0], ast.Delete) and len(sb[0].targets) == 1
+            and isinstance(sb[0].targets[0], ast.Subscript) and _is_name(sb[0].targets[0].value, cls_dict)
+            and _is_name(sb[0].targets[0].slice, n) and isinstance(sb[1], ast.If) and len(sb[1].body) == 1
+            and len(sb[1].orelse) == 1):
+        raise Gap(f"config decorator: expected `del {cls_dict}[{n}]` + `if [not] isinstance({v}, ConfigValue): … else: …`")
+    t = sb[1].test
+    negated = isinstance(t, ast.UnaryOp) and isinstance(t.op, ast.Not)
+    if negated:
+        t = t.operand
+    if not (isinstance(t, ast.Call) and _is_name(t.func, "isinstance") and len(t.args) == 2 and _is_name(t.args[0], v)
+            and _is_name(t.args[1], "ConfigValue")):
+        raise Gap(f"config decorator: unknown test `{_src(sb[1].test)}`")
+    plain_st, wrapped_st = (sb[1].body[0], sb[1].orelse[0]) if negated else (sb[1].orelse[0], sb[1].body[0])
+    kw = _cv_call(plain_st, meta_dict, n, "plain attribute")
+    if not (set(kw) == {"default", "env_var_prefix"} and _is_name(kw["default"], v)
+            and _is_name(kw["env_var_prefix"], prefix)):
+        raise Gap(f"config decorator: plain attribute: expected `ConfigValue(default={v}, env_var_prefix={prefix})`, got "
+                  f"`{_src(plain_st.value)}`")
+    kw = _cv_call(wrapped_st, meta_dict, n, "ConfigValue attribute")
+    if not ("default" in kw and _is_attr_of(kw["default"], v, "default") and "env_var_prefix" in kw
+            and _is_name(kw["env_var_prefix"], prefix)):
+        raise Gap(f"config decorator: ConfigValue attribute: default / prefix not carried over in `{_src(wrapped_st.value)}`")
+    keeps = []
+    for k, node in kw.items():
+        if k in ("default", "env_var_prefix"):
+            continue
+        if k == "env_var" and _is_attr_of(node, v, "_env_var"):
+            keeps.append("envVar")
+        elif k == "parser" and _is_attr_of(node, v, "parser"):
+            keeps.append("parser")
+        else:
+            raise Gap(f"config decorator: ConfigValue attribute: unknown keyword `{k}={_src(node)}`")
+    # after the loop: the metaclass gets the selected names, the class the rest
+    if not (len(post) == 3 and isinstance(post[0], ast.Assign) and isinstance(post[1], ast.Assign)
+            and isinstance(post[2], ast.Return)):
+        raise Gap("config decorator: expected `meta = type(…)`, `cls = meta(…)`, `return cls` after the loop")
+    mt, ct, rt = post
+    ok = len(mt.targets) == 1 and isinstance(mt.targets[0], ast.Name) and isinstance(mt.value, ast.Call) \
+        and _is_name(mt.value.func, "type") and len(mt.value.args) == 3 and not mt.value.keywords \
+        and isinstance(mt.value.args[1], ast.Tuple) and len(mt.value.args[1].elts) == 1 \
+        and _is_name(mt.value.args[1].elts[0], "ConfigMeta") and _is_name(mt.value.args[2], meta_dict)
+    if not ok:
+        raise Gap(f"config decorator: metaclass creation `{_src(mt)}`")
+    meta = mt.targets[0].id
+    ok = len(ct.targets) == 1 and isinstance(ct.targets[0], ast.Name) and isinstance(ct.value, ast.Call) \
+        and _is_name(ct.value.func, meta) and len(ct.value.args) == 3 and not ct.value.keywords \
+        and _is_attr_of(ct.value.args[0], cls, "__name__") and _is_attr_of(ct.value.args[1], cls, "__bases__") \
+        and _is_name(ct.value.args[2], cls_dict) and _is_name(rt.value, ct.targets[0].id)
+    if not ok:
+        raise Gap(f"config decorator: class creation `{_src(ct)}; {_src(rt)}`")
+    return tests, keeps
+
+
 def extract(path):
     tree = ast.parse(open(path).read())
     classes = {n.name: n for n in tree.body if isinstance(n, ast.ClassDef)}
@@ -419,6 +559,10 @@ def extract(path):
     if "update" not in mm:
         raise Gap("ConfigMeta.update not found")
     data["updateRaises"], data["updateErr"] = _update(mm["update"])
+    fns = {n.name: n for n in tree.body if isinstance(n, ast.FunctionDef)}
+    if "config" not in fns:
+        raise Gap("decorator `config` not found")
+    data["nameTests"], data["wrappedKeeps"] = _decorator(fns["config"])
     return data
 
 
@@ -480,6 +624,12 @@ def lean_text(data, rel="pyroll/core/config.py"):
         "/-- `ConfigMeta.update`: does the unknown-name branch contain a `raise`, and of what -/",
         f"def updateRaises : Bool := {'true' if data['updateRaises'] else 'false'}",
         f"def updateErr : Err := {ERR.get(data['updateErr'], '.other')}",
+        "",
+        "/-- `config` decorator: an attribute `n` of the decorated class becomes a `ConfigValue` iff all of these hold -/",
+        "def nameTests : List NameTest := [" + ", ".join(
+            ".isUpper" if t[0] == "isUpper" else f".notStartsWith {_txt(t[1])}" for t in data["nameTests"]) + "]",
+        "/-- … and an attribute that already is a `ConfigValue(...)` keeps (besides its default) -/",
+        "def wrappedKeeps : List CVField := [" + ", ".join("." + k for k in data["wrappedKeeps"]) + "]",
         "",
         "end Gen.C20",
         "",
